@@ -152,6 +152,7 @@ ATagsOf(a, n)     == {x[2] : x \in {y \in a.R : y[1] = n}}
 APkgsOf(a, n)     == {x[1] : x \in {y \in a.R : y[2] = n}}
 ACard(a, n)       == Cardinality(APkgsOf(a, n))
 APkgCount(a)      == Cardinality(a.P)
+ADiscriminance(a, n) == LET c == ACard(a, n) t == Cardinality(a.P) IN IF c <= t - c THEN c ELSE t - c   \* min(n, tot - n)
 ATagCount(a)      == Cardinality(a.T)
 AHasPkg(a, n)     == n \in a.P
 AHasTag(a, n)     == n \in a.T
@@ -208,6 +209,10 @@ IInsert(st, p, S, dev) ==
                 ELSE st.rdb[t]]]
 IReverse(st)     == [db |-> st.rdb, rdb |-> st.db]
 ICopy(st)        == [db |-> [k \in DOMAIN st.db |-> st.db[k]], rdb |-> [t \in DOMAIN st.rdb |-> st.rdb[t]]]
+\* dump() / output(db) printed and read() again: the tag index is rebuilt from the package index;
+\* dump_reverse() printed and read() again: the reverse collection rebuilt from the tag index
+IDumpRead(st)        == [db |-> st.db,  rdb |-> RevFn(st.db)]
+IDumpReverseRead(st) == [db |-> st.rdb, rdb |-> RevFn(st.rdb)]
 IReverseCopy(st) == [db |-> [t \in DOMAIN st.rdb |-> st.rdb[t]], rdb |-> [k \in DOMAIN st.db |-> st.db[k]]]
 \* choose_packages(S): `if pkg in self.db`;  choose_packages_copy(S): no test (domain: S present)
 IChoose(st, S)     == LET d == [k \in {x \in S : x \in DOMAIN st.db} |-> st.db[k]] IN [db |-> d, rdb |-> RevFn(d)]
@@ -244,6 +249,7 @@ ITagsOf(st, n)   == IF n \in DOMAIN st.db THEN st.db[n] ELSE {}
 IPkgsOf(st, n)   == IF n \in DOMAIN st.rdb THEN st.rdb[n] ELSE {}
 ICard(st, n)     == IF n \in DOMAIN st.rdb THEN Cardinality(st.rdb[n]) ELSE 0
 IPkgCount(st)    == Cardinality(DOMAIN st.db)
+IDiscriminance(st, n) == LET c == ICard(st, n) t == Cardinality(DOMAIN st.db) IN IF c <= t - c THEN c ELSE t - c
 ITagCount(st)    == Cardinality(DOMAIN st.rdb)
 IHasPkg(st, n)   == n \in DOMAIN st.db
 IHasTag(st, n)   == n \in DOMAIN st.rdb
@@ -364,11 +370,23 @@ Reverse           == /\ SetAbs(AReverse(Abs))
                         \/ /\ SetImpl(IReverseCopy(Impl))
                            /\ Retain(Impl, LReverseCopy(Impl, ShallowCopy), IReverseCopy(Impl))
                            /\ NewObject(NoView)
-\* copy() / qwrite() + qread() into a new DB (never shares)
+
+\* copy() / qwrite() + qread() into a new DB / pickle or deepcopy of the object (never share)
 Copy              == /\ SetAbs(Abs)
                      /\ Edge("copy", <<>>, {}, <<>>)
                      /\ SetImpl(ICopy(Impl))
                      /\ (Retain(Impl, LCopy(Impl, ShallowCopy), ICopy(Impl)) \/ Retain(Impl, NoAlias(Impl), ICopy(Impl)))
+                     /\ NewObject(NoView)
+\* the text printed by dump() / output(db) -- or by dump_reverse() -- read into a new DB: the text
+\* format has one line per key of the printed index, so keys of the OTHER index that occur in no
+\* pair (a tag without packages / an untagged package of the reversed view) are not written
+DumpRead          == /\ SetAbs([P |-> P, T |-> AUsedT(R), R |-> R])
+                     /\ Edge("dumpread", <<>>, {}, <<>>)
+                     /\ SetImpl(IDumpRead(Impl)) /\ Retain(Impl, NoAlias(IDumpRead(Impl)), IDumpRead(Impl))
+                     /\ NewObject(NoView)
+DumpReverseRead   == /\ SetAbs([P |-> T, T |-> AUsedP(R), R |-> AReverse(Abs).R])
+                     /\ Edge("dumprevread", <<>>, {}, <<>>)
+                     /\ SetImpl(IDumpReverseRead(Impl)) /\ Retain(Impl, NoAlias(IDumpReverseRead(Impl)), IDumpReverseRead(Impl))
                      /\ NewObject(NoView)
 \* choose_packages(S \cup X) with X absent names / choose_packages_copy(S) /
 \* filter_packages(_copy)(in S) / filter_packages_tags(_copy)(item key in S),   S \subseteq P
@@ -437,7 +455,7 @@ Next == \/ \E K \in SUBSET PK : \E c \in [K -> SUBSET FT] :
               \/ Pristine /\ \E d \in ReadDrops : Read(LinesOf(c), d)
               \/ ~Pristine /\ K = ReReadKeys /\ (\A k \in K : c[k] = {ReReadTag}) /\ Read(LinesOf(c), {})
         \/ \E p \in KeyPool \ P : \E S \in SUBSET ValPool : Insert(p, S)
-        \/ Reverse \/ Copy
+        \/ Reverse \/ Copy \/ DumpRead \/ DumpReverseRead
         \/ \E S \in SUBSET P : RestrictPackages(S, KeyPool \ P)
         \/ \E S \in SUBSET T : FilterTags(S)
         \/ FacetCollection
@@ -457,6 +475,7 @@ QueriesAgree == /\ IPkgCount(Impl) = APkgCount(Abs) /\ ITagCount(Impl) = ATagCou
                 /\ \A n \in AllNames : /\ ITagsOf(Impl, n) = ATagsOf(Abs, n)
                                        /\ IPkgsOf(Impl, n) = APkgsOf(Abs, n)
                                        /\ ICard(Impl, n) = ACard(Abs, n)
+                                       /\ IDiscriminance(Impl, n) = ADiscriminance(Abs, n)
                                        /\ IHasPkg(Impl, n) = AHasPkg(Abs, n)
                                        /\ IHasTag(Impl, n) = AHasTag(Abs, n)
 \* the deprecated aliases answer for the object they are called on
@@ -486,6 +505,7 @@ EmitState == Emit => PrintT(<<"STATE", ToJson([s |-> Abs,
                         tagsOf |-> [i \in 1..Len(QN) |-> ATagsOf(Abs, QN[i])],
                         pkgsOf |-> [i \in 1..Len(QN) |-> APkgsOf(Abs, QN[i])],
                         card   |-> [i \in 1..Len(QN) |-> ACard(Abs, QN[i])],
+                        disc   |-> [i \in 1..Len(QN) |-> ADiscriminance(Abs, QN[i])],
                         hasP   |-> [i \in 1..Len(QN) |-> AHasPkg(Abs, QN[i])],
                         hasT   |-> [i \in 1..Len(QN) |-> AHasTag(Abs, QN[i])],
                         pc     |-> APkgCount(Abs),
